@@ -62,6 +62,11 @@ func (h *half) read(p []byte) (int, error) {
 		if h.failAt >= 0 && h.nread >= h.failAt {
 			return 0, h.rerr
 		}
+		// like net.Conn: once the deadline has passed every read fails until it is set again,
+		// whether or not data is waiting
+		if !h.rdl.IsZero() && !time.Now().Before(h.rdl) {
+			return 0, timeoutErr{}
+		}
 		if len(h.buf) > 0 {
 			n := len(p)
 			if n > len(h.buf) {
@@ -98,6 +103,10 @@ func (h *half) write(p []byte) (int, error) {
 	for len(p) > 0 {
 		if h.rclosed || h.weof {
 			return written, io.ErrClosedPipe
+		}
+		// like net.Conn: a write under a deadline that has passed fails at once, room or not
+		if !h.wdl.IsZero() && !time.Now().Before(h.wdl) {
+			return written, timeoutErr{}
 		}
 		room := len(p)
 		if h.cap > 0 {
